@@ -46,9 +46,10 @@ NEEDS = {
 }
 for sid in sorted(os.listdir(os.path.join(VERIF, "seeded"))):
     d = os.path.join(VERIF, "seeded", sid)
-    if not os.path.isdir(d): continue
+    if not os.path.isdir(d) or not os.path.exists(os.path.join(d, 'patch.diff')): continue
     meta = {"seed": sid, "property": sid.split("-")[0], "needs_to_manifest": NEEDS.get(sid, "see NOTES.md"),
             "origin": "independent sub-agent given only the property text and a scratch worktree" if sid != "C19-static" else "mutant list of properties.jsonl, written by hand"}
+    meta["demonstration"] = "run_demo.sh (builds demo.c in several build configurations and compares)" if os.path.exists(os.path.join(d, "run_demo.sh")) else "demo.c (exit 0 on the unchanged tree, exit 1 with the change)"
     cf = os.path.join(d, "confirm.json")
     if os.path.exists(cf):
         c = json.load(open(cf))
